@@ -128,7 +128,9 @@ def run_one(ch, env):
     if needs_dir:
         d = env.fresh_dir()
         stage.populate(d)
-    sim = Sim(ch, step_cap=400000 if getattr(stage, "large", False) else 60000)
+    sim = Sim(ch, step_cap=12000000 if getattr(stage, "huge", False) else (400000 if getattr(stage, "large", False) else 60000))
+    if getattr(stage, "huge", False):
+        res["extra"]["huge_leaf_set"] = 1
     if getattr(stage, "large", False):
         res["extra"]["large_item_set"] = 1
     sim.rootdir = d
